@@ -150,6 +150,8 @@ prop('C10', units=['li', 'lp'], level='proof',
                   'R11: the parameters named like their function (position, range) are alpha-renamed in the verified text'])
 
 prop('C09', units=['ls'], level='proof',
+     bounded=[dict(test='c09_session', covers='the to_proto conversions of structured results (document symbols with children and selection ranges, folding ranges, document links, inlay hints): the bodies of to_proto::* are external_body in unit LS, which proves which line index each conversion is given; position / range arithmetic is proved in unit LP',
+                   bound='one recorded session on the real server: root.td (CRLF, non-ASCII and astral characters in comments and strings, defset, foreach, defm) including inc.td (LF); documentSymbol, foldingRange, documentLink and inlayHint for both documents; every range compared with the span the analysis computes for that document, converted by an independent reference (line, UTF-16 column); 20 symbols with children, 9 folding ranges, 1 link, 6 hints')],
      explanation=('Unit LS (index provenance): Verus proves, on the real bodies of the handler closures of crates/lsp/src/server.rs (definition, references, document_symbol, inlay_hint, '
                   'document_link, folding_range and the closure that publishes diagnostics), that every conversion of an analysis result into LSP coordinates (to_proto::location / '
                   'document_symbol / inlay_hint / document_link / folding_range / diagnostic) is called with the LineIndex OF THE FILE THE RESULT LIES IN: ghost li_file(index) is fixed by '
